@@ -40,8 +40,22 @@ package plugin
 
 //@ contract NewTransportHandle
 //@   props C16
+//@   ensures(nowait) forall(c, Ref, waitCalls(c) == old(waitCalls(c)) && startCalls(c) == old(startCalls(c)) && closeCalls(c) == old(closeCalls(c)))
 //@   ensures(handshake) err == nil ==> typeis(result, *transportHandle) && result.(*transportHandle) != nil
 //@   ensures(name) err == nil ==> lastHsName(result.(*transportHandle).Client) == name
 //@   ensures(version) err == nil ==> lastHsVersion(result.(*transportHandle).Client) == api.APIVersion
 //@   ensures(running) err == nil ==> result.(*transportHandle).Running != nil && abool(result.(*transportHandle).Running)
 //@   ensures(transport) err == nil ==> result.(*transportHandle).Transport == t && result.(*transportHandle).name == name
+
+// Flag.Handle (C16): a plugin process that was started but fails the handshake is
+// closed again: the child is waited for (reaped) exactly once.
+//@ contract (*Flag).Handle
+//@   props C16
+//@   requires f != nil && f.Command != nil
+//@   let s0 = startCalls(f.Command)
+//@   let w0 = waitCalls(f.Command)
+//@   let cmd = f.Command
+//@   modifies all
+//@   ensures(reaped) err != nil && startCalls(cmd) == s0 + 1 ==> waitCalls(cmd) == w0 + 1
+//@   ensures(ok) err == nil ==> result != nil && waitCalls(cmd) == w0
+//@   ensures(nil) err != nil ==> result == nil
